@@ -105,21 +105,50 @@ func or3(a, b string) string {
 	return "F"
 }
 
+// numericNameCases: field names that are decimal numbers inside the documents of an array, addressed by a path
+// whose numeric component is an existing index, an index past the end, or no index at all.
+func numericNameCases() [][2]bson.D {
+	var out [][2]bson.D
+	e := func(k string, v interface{}) bson.D { return bson.D{{Key: k, Value: v}} }
+	docs := []bson.D{
+		e("items", bson.A{e("3", "x"), e("3", "y")}),
+		e("items", bson.A{e("3", "x"), e("4", "y"), bson.D{}}),
+		e("items", bson.A{e("0", int32(1)), e("1", int32(2))}),
+		e("items", bson.A{int32(5), e("1", int32(2)), "s"}),
+		e("items", bson.A{e("3", e("b", int32(1))), e("3", e("b", int32(2)))}),
+		e("items", bson.A{e("b", int32(1)), e("b", int32(2))}),
+		e("items", bson.A{}),
+		e("items", e("3", "y")),
+		e("m", e("items", bson.A{e("3", "x"), e("3", "y"), e("7", int32(1))})),
+	}
+	paths := []string{"items.3", "items.1", "items.0", "items.7", "items.3.b", "items.1.b", "m.items.3", "m.items.7", "m.items.2"}
+	conds := []bson.D{e("$eq", "y"), e("$ne", "y"), e("$in", bson.A{"y", int32(2)}), e("$nin", bson.A{"x"}), e("$gte", "y"), e("$lt", int32(2)), e("$exists", true), e("$exists", false),
+		e("$eq", int32(2)), e("$type", "string"), e("$not", e("$eq", "x")), e("$gt", int32(0)), e("$eq", int32(1))}
+	for _, d := range docs {
+		for _, p := range paths {
+			for _, c := range conds {
+				out = append(out, [2]bson.D{d, {{Key: p, Value: c}}})
+			}
+		}
+	}
+	return out
+}
+
 func fixedCases() [][2]bson.D {
-	return [][2]bson.D{
+	return append(numericNameCases(), [][2]bson.D{
 		// KF-C10-1: $type "array" over a fan-out path
 		{bson.D{{Key: "a", Value: bson.A{bson.D{{Key: "b", Value: bson.A{int32(1), int32(2)}}}}}}, bson.D{{Key: "a.b", Value: bson.D{{Key: "$type", Value: "array"}}}}},
 		{bson.D{{Key: "a", Value: bson.A{bson.D{{Key: "b", Value: bson.A{}}}}}}, bson.D{{Key: "a.b", Value: bson.D{{Key: "$type", Value: int32(4)}}}}},
 		// $type on missing and null fields
 		{bson.D{}, bson.D{{Key: "a", Value: bson.D{{Key: "$type", Value: "null"}}}}},
 		{bson.D{{Key: "a", Value: nil}}, bson.D{{Key: "a", Value: bson.D{{Key: "$type", Value: "null"}}}}},
-	}
+	}...)
 }
 
 func main() {
 	if len(os.Args) == 3 && os.Args[1] == "strings" {
 		// string table for the bounded specification-level check
-		for _, k := range []string{"a", "b", "c", "x", "a.b", "a.0", "a.0.b", "a.1", "a.b.c", "number", "string", "array", "object", "null", "int"} {
+		for _, k := range []string{"a", "b", "c", "x", "1", "a.b", "a.0", "a.0.b", "a.1", "a.1.b", "a.b.c", "number", "string", "array", "object", "null", "int"} {
 			table.Add(k)
 		}
 		util.WriteJSON(filepath.Join(os.Args[2], "strings.json"), table.JSON())
